@@ -328,16 +328,19 @@ namespace bluetoe {
                     if ( procedure_in_progress_ )
                         return std::make_pair( error_codes::procedure_already_in_progress, false );
 
-                    procedure_in_progress_  = true;
-                    current_opcode_         = *value;
+                    const std::uint8_t opcode = *value;
                     ++value;
 
-                    switch ( current_opcode_ )
+                    // a request that is rejected, starts no procedure
+                    switch ( opcode )
                     {
                     case set_cumulative_value_opcode:
                         {
                             if ( write_size != 1 + 4 )
                                 return std::make_pair( error_codes::invalid_pdu, false );
+
+                            procedure_in_progress_  = true;
+                            current_opcode_         = opcode;
 
                             handler.set_cumulative_wheel_revolutions( bluetoe::details::read_32bit( value ) );
                             return std::make_pair( error_codes::success, false );
@@ -347,6 +350,9 @@ namespace bluetoe {
                             if ( write_size != 1 )
                                 return std::make_pair( error_codes::invalid_pdu, false );
 
+                            procedure_in_progress_  = true;
+                            current_opcode_         = opcode;
+
                             return std::make_pair( error_codes::success, true );
                         }
                     case update_sensor_location_opcode:
@@ -354,12 +360,18 @@ namespace bluetoe {
                             if ( write_size != 1 + 1 )
                                 return std::make_pair( error_codes::invalid_pdu, false );
 
+                            procedure_in_progress_  = true;
+                            current_opcode_         = opcode;
+
                             this->set_sensor_position( *value);
 
                             return std::make_pair( error_codes::success, true );
                         }
                     default:
                         // according to the spec with have to response with success and then indicate an error
+                        procedure_in_progress_  = true;
+                        current_opcode_         = opcode;
+
                         return std::make_pair( error_codes::success, true );
                     }
 
